@@ -5,6 +5,7 @@
 // usage: run_rejdom [domain-filter]
 #include "vh_ppl.hh"
 #include <functional>
+#include <limits>
 using namespace Parma_Polyhedra_Library;
 
 typedef BD_Shape<mpq_class> BDS; typedef Octagonal_Shape<mpq_class> OCT; typedef Box<Rational_Interval> RBOX;
@@ -182,6 +183,19 @@ template <typename D> static void generic_battery(const char* dom) {
     // space-dimension overflow
     ATT("add_space_dimensions_and_embed", "overflow", Ovf<D>::expect(), x.add_space_dimensions_and_embed(D::max_space_dimension() - n + 1));
     ATT("add_space_dimensions_and_project", "overflow", Ovf<D>::expect(), x.add_space_dimensions_and_project(D::max_space_dimension() - n + 1));
+    // huge counts: the count alone exceeds the maximum, and counts for which `space_dimension() + m' wraps around
+    { const dimension_type SM = std::numeric_limits<dimension_type>::max();
+      const dimension_type huge[] = { SM, SM - 1, SM - n + 1, SM - n, D::max_space_dimension() };
+      static const char* hk[] = { "overflow-size-max", "overflow-size-max-1", "overflow-wraps-to-1", "overflow-wraps-to-0", "overflow-max" };
+      for (int h = 0; h < 5; ++h) {
+        if (h == 4 && n == 0) continue;      // adding max dimensions to a zero-dim object is legal
+        if (h == 2 && n == 0) continue;      // SIZE_MAX - 0 + 1 is 0: adding no dimension is legal
+        if (std::string(Ovf<D>::expect()) == "undocumented") continue;   // (the shapes document nothing here and compute n + m unchecked)
+        const dimension_type m = huge[h];
+        ATT("add_space_dimensions_and_embed", hk[h], "length_error", x.add_space_dimensions_and_embed(m));
+        ATT("add_space_dimensions_and_project", hk[h], "length_error", x.add_space_dimensions_and_project(m));
+        if (n > 0 && h < 4) ATT("expand_space_dimension", hk[h], "length_error", x.expand_space_dimension(Variable(0), m));
+      } }
     // binary operations with an argument of another dimension
     {
       const D* y4 = new D(n + 1, UNIVERSE);
@@ -350,6 +364,12 @@ static void mip_battery() {
     mip_attempt(st, "set_objective_function", "dim", "invalid_argument", [=](MIP_Problem& p) { p.set_objective_function(Linear_Expression(W)); });
     mip_attempt(st, "add_to_integer_space_dimensions", "var", "invalid_argument", [=](MIP_Problem& p) { Variables_Set vs; vs.insert(W); p.add_to_integer_space_dimensions(vs); });
     mip_attempt(st, "add_space_dimensions_and_embed", "overflow", "length_error", [=](MIP_Problem& p) { p.add_space_dimensions_and_embed(MIP_Problem::max_space_dimension() - n + 1); });
+    { const dimension_type SM = std::numeric_limits<dimension_type>::max();
+      const dimension_type huge[] = { SM, SM - 1, SM - n + 1, SM - n };
+      static const char* hk[] = { "overflow-size-max", "overflow-size-max-1", "overflow-wraps-to-1", "overflow-wraps-to-0" };
+      for (int h = 0; h < 4; ++h) { const dimension_type m = huge[h];
+        if (h == 2 && n == 0) continue;
+        mip_attempt(st, "add_space_dimensions_and_embed", hk[h], "length_error", [=](MIP_Problem& p) { p.add_space_dimensions_and_embed(m); }); } }
     mip_attempt(st, "evaluate_objective_function", "dim", "invalid_argument", [=](MIP_Problem& p) { Coefficient a, b; p.evaluate_objective_function(point(W), a, b); });
     { Constraint_System* cs = new Constraint_System; cs->insert(Linear_Expression(1) >= 0); cs->insert(W >= 0);
       mip_attempt(st, "add_constraints", "dim-last", "invalid_argument", [=](MIP_Problem& p) { p.add_constraints(*cs); }, [=]() { return dump(*cs); }); }
@@ -434,6 +454,13 @@ static void pip_battery() {
     pip_attempt(st, "set_big_parameter_dimension", "dim", "invalid_argument", [=](PIP_Problem& p) { p.set_big_parameter_dimension(n + 2); });
     pip_attempt(st, "add_space_dimensions_and_embed", "overflow-vars", "length_error", [=](PIP_Problem& p) { p.add_space_dimensions_and_embed(PIP_Problem::max_space_dimension() - n + 1, 0); });
     pip_attempt(st, "add_space_dimensions_and_embed", "overflow-params", "length_error", [=](PIP_Problem& p) { p.add_space_dimensions_and_embed(0, PIP_Problem::max_space_dimension() - n + 1); });
+    { const dimension_type SM = std::numeric_limits<dimension_type>::max(); const dimension_type MX = PIP_Problem::max_space_dimension();
+      const dimension_type pairs[][2] = { { SM, 2 }, { SM - 1, 3 }, { 2, SM }, { 3, SM - 1 }, { SM, SM }, { SM - n + 1, 0 }, { 0, SM - n + 1 }, { MX - n, 1 }, { 1, MX - n }, { MX, MX }, { SM / 2 + 1, SM / 2 + 1 } };
+      static const char* pk[] = { "overflow-sum-wraps(SIZE_MAX,2)", "overflow-sum-wraps(SIZE_MAX-1,3)", "overflow-sum-wraps(2,SIZE_MAX)", "overflow-sum-wraps(3,SIZE_MAX-1)", "overflow-both-size-max",
+                                  "overflow-vars-wrap", "overflow-params-wrap", "overflow-one-past(vars=max-n,params=1)", "overflow-one-past(vars=1,params=max-n)", "overflow-both-max", "overflow-halves-wrap" };
+      for (int h = 0; h < 11; ++h) { const dimension_type a = pairs[h][0], b = pairs[h][1];
+        if ((h == 5 || h == 6) && n == 0) continue;     // SIZE_MAX - 0 + 1 is 0
+        pip_attempt(st, "add_space_dimensions_and_embed", pk[h], "length_error", [=](PIP_Problem& p) { p.add_space_dimensions_and_embed(a, b); }); } }
     if (n == 0) continue;
     pip_attempt(st, "add_to_parameter_space_dimensions", "existing-variable", "optional:invalid_argument", [=](PIP_Problem& p) { Variables_Set vs; vs.insert(Variable(1)); p.add_to_parameter_space_dimensions(vs); });
     pip_attempt(st, "add_to_parameter_space_dimensions", "existing-variable-and-new", "optional:invalid_argument", [=](PIP_Problem& p) { p.add_space_dimensions_and_embed(0, 0); Variables_Set vs; vs.insert(Variable(0)); vs.insert(Variable(3)); p.add_to_parameter_space_dimensions(vs); });
